@@ -19,6 +19,8 @@ pub(super) fn index_for_rcurrent(
         .unwrap_or(0);
 
     if rotate_rcurrent {
+        #[cfg(feature = "verif_hooks")]
+        crate::verif_hooks::point("rotate.rename", Some(&config.file_spec.as_pathbuf(Some(CURRENT_INFIX))))?;
         match std::fs::rename(
             config.file_spec.as_pathbuf(Some(CURRENT_INFIX)),
             config
